@@ -59,6 +59,8 @@ def setup_path(world, contract, ex, ctx, prefix):
     p.new_refs = []
     p.called, p.inlined, p.used_abstract, p.written = set(), set(), set(), set()
     p.havoc_n = 0
+    p.heap_epoch = 0
+    p.pure_axioms = set()
     p.cut_hit = False
     p.assume(p.alloc > 0)
     it = Exec(p, world, contract, ex)
@@ -74,6 +76,8 @@ def setup_path(world, contract, ex, ctx, prefix):
         it.env[name] = v
         it.assume_valid(v)
     it.inputs = dict(it.env)
+    if contract.kwarg:
+        it.env[contract.kwarg] = PyObj('pykwargs', items={k: it.env[k] for k in contract.kwarg_keys})
     it.spec = True
     for r in contract.requires:
         p.assume(it.truth(it.eval_text(r)))
@@ -115,12 +119,14 @@ def run_path(world, contract, ex, ctx, prefix, report):
             if getattr(contract, 'generator', False):
                 result = it.env['$yield']
             if isinstance(result, PyObj):
-                if result.tag in ('emptylist', 'emptydict', 'emptyset') and \
-                        not isinstance(contract.returns, K._None):
+                if result.tag in ('emptylist', 'emptydict', 'emptyset') and contract.returns is not None \
+                        and not isinstance(contract.returns, K._None):
                     result = it.empty_of(contract.returns, result)
                 elif contract.returns is not None and not isinstance(contract.returns, K._None):
                     raise Unsupported('returns %r' % (result,))
-            elif not isinstance(contract.returns, K._None) and contract.returns is not None:
+            elif contract.returns is None:
+                pass
+            elif not isinstance(contract.returns, K._None):
                 result = it.coerce_checked(result, contract.returns, 'result-not-None', ex.node)
             it.result = result
             it.spec = True
@@ -350,6 +356,17 @@ class Decoder:
                     out[name] = self.value(v)
                 except Exception as e:      # noqa
                     out[name] = '<undecodable %s>' % e
+        it = self.it
+        saved = (it.env, it.p.heap, it.p.globals, it.spec)
+        it.env, it.p.heap, it.p.globals, it.spec = dict(it.old_env), dict(it.old_heap), dict(it.old_globals), True
+        try:
+            for text in getattr(it.c, 'observe', []):
+                try:
+                    out['observe:' + text] = self.value(it.eval_text(text))
+                except Exception as e:      # noqa
+                    out['observe:' + text] = '<undecodable %s>' % e
+        finally:
+            it.env, it.p.heap, it.p.globals, it.spec = saved
         for name, v in self.it.old_globals.items():
             try:
                 out['ghost:' + name] = self.value(v)
